@@ -401,10 +401,20 @@ def dyn_kinds(w, q):
             ("dynH", dict(traces=6, n=3, steps=450, arg="growth", txp=0.01))]
 
 
+def dyn_mc(w, q):
+    """membership in the exhaustive model (BabbleDyn.tla; ActivationDelay 1): a join into a
+    single-founder network, a leave from a two-validator network; simulation beyond the BFS bound"""
+    run_mc(w, [("dyn1", "MC_dyn1.cfg", 6, 600)] + ([] if q else [("dyn2", "MC_dyn2.cfg", 12, 1500)]), module="MC_dyn.tla")
+    if not q:
+        run_sim(w, "dyn1sim", "MC_dyn1_sim.cfg", 3000, 90, module="MC_dyn.tla", workers=8, timeout=900)
+        run_sim(w, "dyn2sim", "MC_dyn2_sim.cfg", 3000, 90, module="MC_dyn.tla", workers=8, timeout=900)
+
+
 def plan_C10(w):
     q = Q(w)
     known = vlib.load_known()
     run_mc(w, [("hg1", "MC_hg1.cfg", 4, 300)])
+    dyn_mc(w, q)
     traces, sums = drive_all(w, gossip_specs(w, dyn_kinds(w, q)), mode="dyn")
     tvs = w.validate_many(traces, par=6)
     violations, known_hits, drift = judge(w, "C10", tvs, known)
